@@ -4,6 +4,7 @@ import (
 	"fmt"
 	"github.com/gobuffalo/plush/v5"
 	"github.com/gobuffalo/plush/v5/helpers/hctx"
+	"html/template"
 	"strings"
 )
 
@@ -123,6 +124,15 @@ func c12expect(sig int, args []c12arg, block bool) (recv []string, reject bool) 
 		return nil, true
 	}
 	return recv, false
+}
+
+type c12shower struct{ Name string }
+
+func (s c12shower) Show(v interface{}) string {
+	if x, ok := v.(c12shower); ok {
+		return fmt.Sprintf("%s got %T %s", s.Name, v, x.Name)
+	}
+	return fmt.Sprintf("%s got %T", s.Name, v)
 }
 
 func init() {
@@ -352,6 +362,24 @@ func init() {
 				e.Distinct(t[0])
 				if o.Class != "OK" || o.Out != t[1] {
 					e.Violate("c12-bind", fmt.Sprintf("%s: rendered %q (%s %s), want %q; the helper saw (has block, tail) = %v", t[0], o.Out, o.Class, firstLine(o.Msg), t[1], got), map[string]interface{}{"tmpl": t[0], "observed": o})
+				}
+			}
+		}
+		// an argument that NAMES the variable the receiver was reached from (items[0].Show(items), mk().Show(mk)):
+		// the method receives the value of that variable, not the receiver.  (The engine binds the indexed /
+		// returned value under the variable's name while it evaluates the call: known finding
+		// c12-argument-shadowed-by-receiver)
+		{
+			items := []c12shower{{"e0"}, {"e1"}}
+			extra := map[string]interface{}{"items": items, "mk": func() c12shower { return c12shower{"made"} }}
+			for _, t := range [][2]string{{`<%= items[0].Show(items) %>`, "e0 got []main.c12shower"}, {`<%= items[1].Show(items[0]) %>`, "e1 got main.c12shower e0"}, {`<%= mk().Show(mk) %>`, "made got func() main.c12shower"},
+				{`<% let other = items %><%= items[0].Show(other) %>`, "e0 got []main.c12shower"}} {
+				o := runRenderExtra(RCase{Tmpl: t[0]}, extra)
+				e.rep.Evaluations++
+				e.Count("argument-names-receiver-variable")
+				e.Distinct(t[0])
+				if o.Class == "OK" && o.Out != template.HTMLEscapeString(t[1]) {
+					e.Violate("c12-argument-shadowed-by-receiver", fmt.Sprintf("%s: the method must receive the value of the named variable (%q), it rendered %q", t[0], t[1], o.Out), map[string]interface{}{"tmpl": t[0], "observed": o})
 				}
 			}
 		}
